@@ -251,8 +251,8 @@ func genBundle(r *vh.Rand) bundleT {
 						ls = append(ls, "    request {", "      field id string")
 						for f := 0; f < r.Intn(3); f++ {
 							// request fields may refer to declarations of earlier files and packages: the generated
-						// service sub-package file then needs imports of its own, next to those of the main file
-						for _, l := range genField(r, fmt.Sprintf("q%d", f), pool, avail, alias, used) {
+							// service sub-package file then needs imports of its own, next to those of the main file
+							for _, l := range genField(r, fmt.Sprintf("q%d", f), pool, avail, alias, used) {
 								ls = append(ls, "    "+l)
 							}
 						}
